@@ -111,7 +111,8 @@ class CallMixin:
         return f"{ci.name}.{fn.name}" if ci is not None else fn.name
 
     def spec_for(self, fn, module, ci):
-        return self.specs.get(f"{module.path}::{self.qualname(fn, ci)}")
+        sp = self.specs.get(f"{module.path}::{self.qualname(fn, ci)}")
+        return sp if hasattr(sp, 'params') else None
 
     def call_def(self, st, fn, module, ci, args, kwargs, node=None, closure=None):
         spec = self.spec_for(fn, module, ci)
